@@ -233,11 +233,11 @@ func (s *Session) tableObligations(prop string) []*Obligation {
 		}
 		bad := ""
 		for op := range keyOps[k] {
-			if op == 0 || op == 1 || op == 3 || op == 6 {
+			if op == 0 || op == 1 || op == 3 || op == 6 || op == 4 {
 				bad += " " + opTypeName(op)
 			}
 		}
-		add(mk("table-policy:marker/"+k, []string{"C01", "C04"}, bad == "", "a key marked OperatorMap in some table is not mapped to Exempt, FieldName, Namespace or Pipeline in any table (axiom marker-not-exempt; closes the cut-off corner of traverseMapPath)", "key "+k+" is marked OperatorMap and is also mapped to"+bad))
+		add(mk("table-policy:marker/"+k, []string{"C01", "C04"}, bad == "", "a key marked OperatorMap in some table is not mapped to Exempt, FieldName, Namespace, Pipeline or OperatorArray in any table (axiom marker-not-exempt; closes the cut-off corner of traverseMapPath)", "key "+k+" is marked OperatorMap and is also mapped to"+bad))
 	}
 	// C04 must-keep positions and C12 required namespace positions
 	req := func(kind string, list []policyReq, props []string) {
